@@ -365,6 +365,21 @@ def run_check(prop, tier):
             reported.append({"sig": v["sig"], "replay": path})
         if reported:
             rc = EXIT_VIOLATION   # a confirmed, replayable violation outranks a harness error elsewhere
+        # opt-in: write a minimised example replay for every listed known finding observed in this run
+        if os.environ.get("VERIF_KNOWN_EXAMPLES"):
+            for f in listed:
+                for sg in f.get("signatures", []):
+                    ex = known_examples.get(sg)
+                    if not ex:
+                        continue
+                    hss = ex.get("hash_seeds") or [hash_seeds[0]]
+                    kind = "lockstep" if len(hss) > 1 else "invariant"
+                    small, info = minimise(prop, mod, pool, ex["run"], sg, kind, hss,
+                                           int(cfg.get("shrink_budget", 400)))
+                    if info.get("reproduced"):
+                        pth = write_replay(prop, seed, ex["index"], hss, kind, sg, ex.get("detail"), small, info,
+                                           subdir="known")
+                        print(f"[icalsim] known-finding example for {sg}: {pth}", flush=True)
     finally:
         pool.close()
 
